@@ -215,3 +215,19 @@ check(
     'seed()/render() out of scope in this image; gym.make with disable_env_checker=True.',
     'DESIGN.md 3/C20',
 )
+check(
+    'C17',
+    'product (lockstep) exploration of each built configuration against an independently hand-assembled environment over complete action trees; exhaustive single-point corruption of every node of every configuration tree; exhaustive registry enumeration',
+    'Packaged copies are byte-identical, the id table is a bijection consistent with each id\'s name and size and every '
+    'registered spec resolves to its file; every shipped configuration (yaml/, the coin example) and a non-square '
+    'variant of it, built through factory_env_from_data and factory_env_from_yaml, runs in lockstep (all action '
+    'sequences to depth 2-3, thorough 3-4, several seeds; states, observations, rewards, flags, spaces) with an '
+    'environment assembled by an independent assembler; building leaves the tree unchanged and is repeatable; for '
+    'each of the 45 registered component names factory(name, **kw) equals the function called with the accepted '
+    'parameters, ignores unaccepted ones and raises ValueError for missing required ones / unknown names; every '
+    'single-point corruption (delete key, rename component, malformed shape/colour/action/object) at every node is '
+    'rejected with SchemaError/ValueError or - when only an optional/unaccepted parameter vanished - builds the '
+    'environment the assembler builds from the same tree.',
+    'YAML parsed by the strict subset shim when PyYAML is absent; areas and bool-for-int outside the operator alphabet.',
+    'DESIGN.md 3/C17',
+)
